@@ -1,22 +1,29 @@
 """C18 — JSON, TSV/CSV and parameter-file serialisation round-trips (DESIGN.md §5 C18)."""
 import math
+from fractions import Fraction
 import numpy as np
 from . import common as C
 
 PID = 'C18'
 PARALLEL = True
-BATCH = 500
+BATCH = 1200
 BUDGET_S = {'quick': 70, 'thorough': 900}
 RULE = ('JSON: dictionaries with int (incl. negative, zero) and non-integer-like str top-level keys, nested '
         'values {None, bool, int, float, str, list, nested dict, NumPy scalars, ndarrays of every numeric dtype '
-        'incl. bool/float16/complex/big-endian, rank 0..3, empty, non-contiguous, Fortran order, 1-D of 9/10/11 '
-        'items, NaN inside arrays}. TSV/CSV: row lists over a field alphabet (>= 2 columns in the union) with '
-        'missing fields and fully empty rows, both delimiters, string cells that int()/float() reject incl. '
-        'tabs, commas, quotes; two-column cluster tables; parameter files. non-trivial = at least one array or '
-        'nested container (JSON) / at least two rows (tables)')
-ASSUMPTIONS = ['json / csv / base64 / number formatting and parsing / the Python parser are transport: exercised '
-               'through the real libraries here, hypotheses in the theorems',
-               'two-column tables and parameter files are compared on the Python side only']
+        'incl. bool/float16/complex/big-endian, rank 0..3, empty, C / Fortran / transposed / strided / reversed / '
+        'offset views (sent to the model with their real strides and offset), 1-D of 9/10/11 items, NaN inside '
+        'arrays}. TSV/CSV: row lists over a field alphabet (>= 2 columns in the union; names with spaces, commas, '
+        'quotes, a tab in .tsv files) with missing fields and fully empty rows, both delimiters, random integers, '
+        'floats (float / float32 / float64; exact ties of %.4f included) and random string cells that int()/float() '
+        'reject incl. tabs, commas, quotes; two-column cluster tables with negative and large ids and mixed value '
+        'kinds; the number grammar of _try_make_number on random strings; the csv module on random records; '
+        'parameter files with scalars, lists and tuples, quotes and backslashes inside lists, upper-case names. '
+        'non-trivial = at least one array or nested container (JSON) / at least two rows (tables)')
+ASSUMPTIONS = ['json / base64 / repr of floats are transport: exercised through the real libraries here, hypotheses in '
+               'the theorems; csv, universal newlines, int()/float(), %.nf and the literal fragment of the Python '
+               'parser are modelled (Model/C18c, C18p) and compared with the real libraries on every case',
+               'the written files are compared with the model text character by character only as a tally (never an '
+               'alarm); load_metadata on a two-column file is checked on the Python side against the Lean spec of the file']
 DTYPES = ['bool', 'int8', 'uint8', 'int16', 'int32', 'int64', 'uint64', 'float16', 'float32', 'float64',
           'complex64', 'complex128', '>f4', '>i2', '<u4']
 
@@ -49,6 +56,12 @@ def build(v):
             a = big[::2]
         elif lay == 'T' and a.ndim == 2:
             a = np.ascontiguousarray(a.T).T
+        elif lay == 'rev' and a.ndim >= 1:
+            a = np.ascontiguousarray(a[::-1])[::-1]                 # negative stride, offset at the last row
+        elif lay == 'off' and a.ndim >= 1:
+            big = np.zeros((a.shape[0] + 2,) + a.shape[1:], dtype=a.dtype)
+            big[1:-1] = a
+            a = big[1:-1]                                            # non-zero offset into the buffer
         return a
     if t == 'list':
         return [build(x) for x in v['v']]
@@ -57,7 +70,27 @@ def build(v):
     raise ValueError(t)
 
 
-def to_lean(v):
+def mem_layout(a):
+    """the array as NumPy has it: strides and offset in items, and the owner's buffer in memory order"""
+    if a.size == 0:
+        return [0] * a.ndim, 0, a.reshape(-1)
+    b = a
+    while isinstance(b.base, np.ndarray):
+        b = b.base
+    isz = a.itemsize
+    off = (a.__array_interface__['data'][0] - b.__array_interface__['data'][0]) // isz
+    flat = np.lib.stride_tricks.as_strided(b, (b.size,), (isz,))
+    return [st // isz for st in a.strides], off, flat
+
+
+def _r(x):
+    """canonical text of one element (Python scalar of the element)"""
+    return repr(x.item() if isinstance(x, np.generic) else x)
+
+
+def to_lean(v, mem):
+    """case value -> Lean value. Arrays are sent with their real memory layout; the items of the k-th array's
+    buffer are the tokens (k+1)*10**6 + memory position, and `mem[k]` keeps the text of the value stored there"""
     t = v['t']
     if t == 'float':
         return dict(t='float', v=abs(hash(repr(v['f']))) % 100000)
@@ -66,12 +99,16 @@ def to_lean(v):
             return dict(t='float', v=abs(hash(repr(float(v['v'])))) % 100000)
         return dict(t='np', v=int(v['v']))
     if t == 'arr':
-        a = build(v)        # the array actually handed to save_json (layout tricks may change its shape)
-        return dict(t='arr', dtype=str(a.dtype), shape=list(a.shape), items=[1000000 + i for i in range(a.size)])
+        a = build(v)        # the array actually handed to save_json (layout tricks may change its strides)
+        strides, off, flat = mem_layout(a)
+        k = len(mem)
+        mem.append([_r(x) for x in flat])
+        return dict(t='arr', dtype=str(a.dtype), shape=list(a.shape), strides=strides, offset=off,
+                    mem=[(k + 1) * 1000000 + i for i in range(len(flat))])
     if t == 'list':
-        return dict(t='list', v=[to_lean(x) for x in v['v']])
+        return dict(t='list', v=[to_lean(x, mem) for x in v['v']])
     if t == 'dict':
-        return dict(t='dict', v=[[k, to_lean(x)] for k, x in v['v']])
+        return dict(t='dict', v=[[k, to_lean(x, mem)] for k, x in v['v']])
     return v
 
 
@@ -88,9 +125,12 @@ def shape_of(x):
     if isinstance(x, str):
         return dict(t='str', v=x)
     if isinstance(x, np.ndarray):
-        return dict(t='arr', dtype=str(x.dtype), shape=list(x.shape))
+        return dict(t='arr', dtype=str(x.dtype), shape=list(x.shape), vals=[_r(y) for y in x.reshape(-1)])
     if isinstance(x, list):
-        return dict(t='list', v=[shape_of(y) for y in x])
+        d = dict(t='list', v=[shape_of(y) for y in x])
+        if all(isinstance(y, (bool, int, float, complex)) for y in x):
+            d['vals'] = [_r(y) for y in x]
+        return d
     if isinstance(x, dict):
         return dict(t='dict', v=sorted([[k, shape_of(y)] for k, y in x.items()], key=lambda e: e[0]))
     return dict(t='other', v=type(x).__name__)
@@ -101,7 +141,7 @@ def lean_shape(v):
     if t == 'float':
         return dict(t='float')
     if t == 'arr':
-        return dict(t='arr', dtype=v['dtype'], shape=v['shape'])
+        return dict(t='arr', dtype=v['dtype'], shape=v['shape'], items=v['items'])
     if t == 'list':
         return dict(t='list', v=[lean_shape(x) for x in v['v']])
     if t == 'dict':
@@ -111,16 +151,26 @@ def lean_shape(v):
     return v
 
 
-def match_shape(real, lean):
-    """structure of the really loaded value vs the Lean result"""
-    if lean['t'] == 'list' and lean['v'] and all(x.get('t') == 'int' and x['v'] >= 1000000 for x in lean['v']):
-        return real['t'] == 'list' and len(real['v']) == len(lean['v']) and all(x['t'] in ('int', 'float', 'bool') for x in real['v'])
+def _vals(items, mem):
+    return [mem[i // 1000000 - 1][i % 1000000] for i in items]
+
+
+def match_shape(real, lean, mem):
+    """structure and array contents of the really loaded value vs the Lean result (`mem`: text of the value at
+    each buffer position of each saved array)"""
+    if lean['t'] == 'list' and lean['v'] and all(x.get('t') == 'int' and 10 ** 6 <= x['v'] < 10 ** 9 for x in lean['v']):
+        # a short 1-D array: comes back as the list of its elements in index order
+        return real['t'] == 'list' and real.get('vals') == _vals([x['v'] for x in lean['v']], mem)
     if lean['t'] != real['t']:
         return False
     if lean['t'] == 'list':
-        return len(lean['v']) == len(real['v']) and all(match_shape(r, l) for r, l in zip(real['v'], lean['v']))
+        return len(lean['v']) == len(real['v']) and all(match_shape(r, l, mem) for r, l in zip(real['v'], lean['v']))
     if lean['t'] == 'dict':
-        return [k for k, _ in lean['v']] == [k for k, _ in real['v']] and all(match_shape(r[1], l[1]) for r, l in zip(real['v'], lean['v']))
+        return [k for k, _ in lean['v']] == [k for k, _ in real['v']] and \
+            all(match_shape(r[1], l[1], mem) for r, l in zip(real['v'], lean['v']))
+    if lean['t'] == 'arr':
+        return real['dtype'] == lean['dtype'] and real['shape'] == lean['shape'] and \
+            real['vals'] == _vals(lean['items'], mem)
     return real == lean
 
 
@@ -152,6 +202,67 @@ def _numeric_like(s):
     return False
 
 
+def param_py(v):
+    """case value of a parameter file -> Python object ({'tuple': [...]} stands for a tuple)"""
+    if isinstance(v, dict):
+        return tuple(v['tuple'])
+    return v
+
+
+def param_enc(v):
+    """a parameter value (saved or read back) in the form the Lean driver uses"""
+    if v is None:
+        return None
+    if isinstance(v, (bool, np.bool_)):
+        return {'bool': bool(v)}
+    if isinstance(v, (int, np.integer)):
+        return {'int': int(v)}
+    if isinstance(v, float):
+        return {'lit': repr(float(v))}
+    if isinstance(v, str):
+        return {'str': v}
+    if isinstance(v, list):
+        return {'list': [param_enc(x) for x in v]}
+    if isinstance(v, tuple):
+        return {'tuple': [param_enc(x) for x in v]}
+    return {'other': repr(v)}
+
+
+def py_enc(v):
+    """a cell value read back by the real code, as (type name, canonical text)"""
+    if type(v) is int:
+        return ['int', v]
+    if type(v) is float:
+        return ['float', repr(v)]
+    if type(v) is str:
+        return ['str', v]
+    return [type(v).__name__, repr(v)]
+
+
+def num_py(n):
+    """a value of the Lean model (`Num`) in the same form; a float ±mant·10^exp is the double nearest to it"""
+    if 'int' in n:
+        return ['int', n['int']]
+    if 'float' in n:
+        neg, mant, e = n['float']
+        try:
+            f = float(Fraction(mant) * Fraction(10) ** e)
+        except OverflowError:
+            f = math.inf
+        return ['float', repr(-f if neg else f)]
+    if 'inf' in n:
+        return ['float', '-inf' if n['inf'] else 'inf']
+    if 'nan' in n:
+        return ['float', 'nan']
+    return ['str', n['text']]
+
+
+def dbl(x):
+    """a finite float as the exact ±m·2^e the Lean model computes with"""
+    num, den = abs(float(x)).as_integer_ratio()
+    return [math.copysign(1.0, x) < 0, num, -(den.bit_length() - 1)]
+
+
 def impl(case):
     from phylib.utils import _misc as M
     op = case['op']
@@ -160,48 +271,87 @@ def impl(case):
             data = {(k['int'] if 'int' in k else k['str']): build(v) for k, v in case['dict']}
             M.save_json(d / 'x.json', data)
             out = M.load_json(d / 'x.json')
-            keys_ok = list(out.keys()) == sorted(data.keys(), key=lambda k: str(k)) or set(out.keys()) == set(data.keys())
             return dict(keys=[[type(k).__name__, k] for k in out.keys()],
                         same=bool(set(out.keys()) == set(data.keys()) and all(type(k) in (int, str) for k in out) and
                                   all(same(data[k], out[k]) for k in data)),
                         shape={str(k): shape_of(out[k]) for k in out})
         if op == 'tsv':
-            rows = [{f: (c['int'] if 'int' in c else (c['float'] if 'float' in c else c['text'])) for f, c in r} for r in case['rows']]
+            npf = {'32': np.float32, '64': np.float64}.get(str(case.get('npfloat')), float)
+            rows = [{f: (c['int'] if 'int' in c else (npf(c['float']) if 'float' in c else c['text'])) for f, c in r}
+                    for r in case['rows']]
             p = d / ('t.' + case['ext'])
             M.write_tsv(p, rows, first_field=case.get('first'))
-            header = p.read_text().split('\n')[0]
+            with p.open(newline='') as fh:          # the text as written (no newline translation)
+                text = fh.read()
             back = M.read_tsv(p)
-            return dict(header=header, back=[[[k, (type(v).__name__, v)] for k, v in r.items()] for r in back])
+            return dict(text=text, back=[[[k, py_enc(v)] for k, v in r.items()] for r in back])
         if op == 'simple':
             p = d / ('s.' + case['ext'])
             data = {int(k): v for k, v in case['data']}
             M._write_tsv_simple(p, case['field'], data)
+            with p.open(newline='') as fh:
+                text = fh.read()
             f, back = M._read_tsv_simple(p)
-            return dict(field=f, back=[[k, type(v).__name__, v] for k, v in back.items()])
+            meta = None
+            if case.get('metadata'):
+                # the same file through the cluster-table reader (phylib.io.model.load_metadata)
+                from phylib.io.model import load_metadata
+                meta = [[fld, [[k, py_enc(v)] for k, v in dd.items()]] for fld, dd in load_metadata(p).items()]
+            return dict(text=text, field=f, back=[[k, py_enc(v)] for k, v in back.items()], meta=meta)
+        if op == 'number':
+            return [py_enc(M._try_make_number(x)) for x in case['strings']]
+        if op == 'csv':
+            # the csv module called the way _misc.py calls it (transport contract of the model)
+            import csv
+            p = d / 'c.txt'
+            delim = '\t' if case['tsv'] else ','
+            with p.open('w', newline='') as fh:
+                csv.writer(fh, delimiter=delim).writerows(case['rows'])
+            with p.open(newline='') as fh:
+                text = fh.read()
+            with p.open('r') as fh:
+                back = [list(r) for r in csv.reader(fh, delimiter=delim)]
+            return dict(text=text, back=back)
         if op == 'params':
             p = d / 'params.py'
+
             def wrap(v):
                 # numbers and flags as NumPy scalars (what arithmetic on loaded arrays hands back)
                 if case.get('npvalues') and isinstance(v, bool):
                     return np.bool_(v)
                 if case.get('npvalues') and isinstance(v, int):
-                    return np.int32(v) if case['npvalues'] == 32 else np.int64(v)
+                    return np.int32(v) if case['npvalues'] == 32 and abs(v) < 2 ** 31 else np.int64(v) if abs(v) < 2 ** 63 else v
                 if case.get('npvalues') and isinstance(v, float):
                     return np.float64(v)
                 return v
-            M.write_python(p, {k: wrap(v) for k, v in case['data']})
+            M.write_python(p, {k: wrap(param_py(v)) for k, v in case['data']})
+            with p.open(newline='') as fh:
+                text = fh.read()
             back = M.read_python(p)
-            return dict(back=[[k, type(v).__name__, v] for k, v in back.items()])
+            return dict(text=text, back=[[k, param_enc(v)] for k, v in back.items()])
     raise ValueError(op)
 
 
 def model_query(case, impl_res):
     if case['op'] == 'json':
-        return dict(p=PID, op='json', dict=[[k, to_lean(v)] for k, v in case['dict']])
+        case['_mem'] = mem = []
+        return dict(p=PID, op='json', dict=[[k, to_lean(v, mem)] for k, v in case['dict']])
+    text = impl_res['ok'].get('text') if isinstance(impl_res.get('ok'), dict) else None
     if case['op'] == 'tsv':
-        rows = [[[f, ({'float': abs(hash('%.4f' % c['float'])) % 100000} if 'float' in c else c)] for f, c in r] for r in case['rows']]
-        return dict(p=PID, op='tsv', rows=rows, first=case.get('first'))
-    return dict(p=PID, op='tsv', rows=[[['a', {'int': 1}], ['b', {'int': 2}]]], first=None)
+        npf = {'32': np.float32, '64': np.float64}.get(str(case.get('npfloat')), float)
+        rows = [[[f, ({'float': dbl(npf(c['float']))} if 'float' in c else c)] for f, c in r] for r in case['rows']]
+        return dict(p=PID, op='table', rows=rows, first=case.get('first'), tsv=case['ext'] == 'tsv', impl_text=text)
+    if case['op'] == 'simple':
+        data = [[int(k), ({'int': v} if type(v) is int else ({'lit': repr(v)} if type(v) is float else {'text': v}))]
+                for k, v in case['data']]
+        return dict(p=PID, op='simple', field=case['field'], data=data, tsv=case['ext'] == 'tsv', impl_text=text)
+    if case['op'] == 'number':
+        return dict(p=PID, op='number', strings=case['strings'])
+    if case['op'] == 'csv':
+        return dict(p=PID, op='csv', rows=case['rows'], tsv=case['tsv'], impl_text=text)
+    if case['op'] == 'params':
+        return dict(p=PID, op='params', data=[[k, param_enc(param_py(v))] for k, v in case['data']], impl_text=text)
+    raise ValueError(case['op'])
 
 
 def judge(case, impl_res, ans):
@@ -220,48 +370,77 @@ def judge(case, impl_res, ans):
             exp_keys = [[('int' if 'int' in k else 'str'), (k['int'] if 'int' in k else k['str'])] for k, v in case['dict']]
             return 'SPEC: loaded dictionary differs from the saved one (keys loaded %s, saved %s)' % (ok['keys'], exp_keys)
         exp = {str(k['int'] if 'int' in k else k['str']): lean_shape(v) for k, v in m['model']}
-        if set(ok['shape']) != set(exp) or not all(match_shape(ok['shape'][k], exp[k]) for k in exp):
-            return 'CORR: structure of the loaded value differs from the model'
+        if set(ok['shape']) != set(exp) or not all(match_shape(ok['shape'][k], exp[k], case['_mem']) for k in exp):
+            return 'CORR: structure / array contents of the loaded value differ from the model'
         return None
     if op == 'tsv':
+        if m.get('header') is None:
+            return 'MACHINERY: the generator produced an empty table'
+        if m['back'] != m['expected']:
+            return 'MACHINERY: model table round trip differs from its spec (contradicts the theorem)'
         fields = []
         for r in case['rows']:
             for f, c in r:
                 if f not in fields:
                     fields.append(f)
-        delim = '\t' if case['ext'] == 'tsv' else ','
-        hdr = ok['header'].split(delim)
+        exp = [[[f, num_py(v)] for f, v in r] for r in m['expected']]
         first = case.get('first')
-        if first in fields and hdr[0] != first:
-            return 'SPEC: requested first column %r is not first (header %s)' % (first, hdr)
-        exp = []
-        for r in case['rows']:
-            e = {}
-            for f, c in r:
-                e[f] = c['int'] if 'int' in c else (float('%.4f' % c['float']) if 'float' in c else c['text'])
-            exp.append(e)
-        back = [{k: v[1] for k, v in r} for r in ok['back']]
-        types_ok = all(type(e[k]).__name__ == dict((kk, vv[0]) for kk, vv in r)[k] for e, r in zip(exp, ok['back']) for k in e) if len(exp) == len(back) else False
-        if back != exp or not types_ok:
-            return 'SPEC: table read back as %s, written %s' % (back, exp)
-        if hdr != m['header']:
+        real_hdr = m['real_header']          # first record of the real file (read by the model's csv reader)
+        if first in fields and (not real_hdr or real_hdr[0] != first):
+            return 'SPEC: requested first column %r is not first (header %s)' % (first, real_hdr)
+        if ok['back'] != exp:
+            return 'SPEC: table read back as %s, written %s' % (ok['back'], exp)
+        if m['real_parsed'] != m['expected']:
+            return 'CORR: the file written by the real code, read by the model reader, differs from the table'
+        if real_hdr != m['header']:
             return 'CORR: header order differs from the model'
         return None
     if op == 'simple':
-        exp = sorted([[int(k), type(v).__name__, v] for k, v in case['data']])
+        if m['back'] != m['expected']:
+            return 'MACHINERY: model two-column round trip differs from its spec (contradicts the theorem)'
+        exp = [[k, num_py(v)] for k, v in m['expected']['data']]
         if ok['field'] != case['field'] or sorted(ok['back']) != exp:
-            return 'SPEC: two-column table read back as %s, written %s' % (ok['back'], exp)
+            return 'SPEC: two-column table read back as %s %s, written %s %s' % (ok['field'], ok['back'], case['field'], exp)
+        if ok.get('meta') is not None:
+            # the same file through load_metadata: in the domain of Props.metadata_roundtrip (no empty value, field
+            # not called cluster_id) the Lean spec says what must come back; outside, the model of load_metadata
+            in_dom = case['field'] != 'cluster_id' and all(v != '' for _, v in case['data'])
+            if in_dom and m['meta'] != m['meta_expected']:
+                return 'MACHINERY: model load_metadata differs from its spec (contradicts the theorem)'
+            want = [[f, [[num_py(k), num_py(v)] for k, v in dd]] for f, dd in m['meta']]
+            got = [[f, [[['int', k] if type(k) is int else py_enc(k), v] for k, v in dd]] for f, dd in ok['meta']]
+            if got != want:
+                return '%s: metadata file loaded as %s, expected %s' % ('SPEC' if in_dom else 'CORR', got, want)
+        if m['real_parsed'] != m['expected']:
+            return 'CORR: the file written by the real code, read by the model reader, differs from the table'
+        return None
+    if op == 'number':
+        exp = [num_py(v) for v in m['values']]
+        if ok != exp:
+            bad = [(x, r, e) for x, r, e in zip(case['strings'], ok, exp) if r != e]
+            return 'CORR: _try_make_number differs from the model on %s' % bad[:3]
+        return None
+    if op == 'csv':
+        if m['back'] != case['rows']:
+            return 'MACHINERY: csv model does not round-trip its own text (contradicts the theorem)'
+        if ok['back'] != case['rows'] or m['real_parsed'] != case['rows'] or ok['text'] != m['text']:
+            return 'MACHINERY: the csv transport model differs from the csv module (text %r vs %r)' % (ok['text'], m['text'])
         return None
     if op == 'params':
-        exp = [[k, type(v).__name__, v] for k, v in case['data']]
-        if ok['back'] != exp:
-            return 'SPEC: parameter file read back as %s, written %s' % (ok['back'], exp)
+        if m['back'] != m['expected']:
+            return 'MACHINERY: model parameter-file round trip differs from its spec (contradicts the theorem)'
+        if ok['back'] != m['expected']:
+            return 'SPEC: parameter file read back as %s, written %s' % (ok['back'], m['expected'])
+        if m['real_parsed'] != m['expected']:
+            return 'CORR: the file written by the real code, read by the model reader, differs from the dictionary'
         return None
 
 
 def nontrivial(case):
     if case['op'] == 'json':
         return any(v['t'] in ('arr', 'list', 'dict') for k, v in case['dict'])
+    if case['op'] == 'number':
+        return True
     return len(case.get('rows', case.get('data', []))) >= 2
 
 
@@ -283,8 +462,13 @@ def tally(rep, case, impl_res, ans):
                 if x['t'] == 'dict':
                     [walk(y) for _, y in x['v']]
             walk(v)
-    elif case['op'] == 'tsv':
-        rep.count('ext:' + case['ext'])
+    elif case['op'] in ('tsv', 'simple', 'csv', 'params'):
+        if case['op'] != 'params':
+            rep.count('ext:' + case.get('ext', 'tsv' if case.get('tsv') else 'csv'))
+        # mechanism-level tie, never an alarm: is the written file the text the model writes, character by character?
+        if isinstance(impl_res.get('ok'), dict) and isinstance(ans.get('ok'), dict) and 'text' in ans['ok']:
+            rep.count('file_text_equals_model' if impl_res['ok'].get('text') == ans['ok']['text']
+                      else 'file_text_DIFFERS_from_model')
 
 
 def classify(case, impl_res, ans, why):
@@ -295,7 +479,7 @@ def classify(case, impl_res, ans, why):
 
 
 def shrink(case):
-    key = {'json': 'dict', 'tsv': 'rows', 'simple': 'data', 'params': 'data'}[case['op']]
+    key = {'json': 'dict', 'tsv': 'rows', 'simple': 'data', 'params': 'data', 'number': 'strings', 'csv': 'rows'}[case['op']]
     v = case[key]
     if len(v) > 1:
         for i in range(len(v)):
@@ -305,6 +489,47 @@ def shrink(case):
 
 
 TEXTS = ['abc', 'a\tb', 'x,y', 'say "hi"', "it's", 'tab\tand,comma', 'good', 'mua', 'ünï', 'a b ', '#1', '1e', '--', 'e5']
+# strings close to Python's int()/float() grammar (accepted and rejected ones)
+NUMBERISH = ['1e', '--', 'e5', '+3', ' 2', '1_0', '1.', '.5', 'nan', 'inf', '-Infinity', '1e5', '0x10', '1__0', '_1', '1_',
+             '1_0.5', '1._5', '1e_5', '1e1_0', ' 1.5 ', '1 2', '', '-', '+', '.', 'e', '1e+', '- 1', '+-1', '1\n', '\t7\x0c',
+             'infinit', 'nAn', '-nan', '+inf', '1.5e-3', '007', '-0', '1E5', '1.e5', '.e5', '0.0001', 'in f', '1_000e1_0',
+             '1d5', '0b1', '1j', '-.5', '+.5e+2', '5.', '5.e', '1e-0', '00.0', '-00', '1_.5', '._5', 'Inf', 'iNfInItY',
+             'infinity_', 'na n', '1e5 ', ' \t-12\r\n', '12abc', 'abc12', '1,5', '1\t2', '"5"', "'5'", '1e400', '-1e-400',
+             '123456789012345678901234567890', '0.1e1', '1.0000', '-0.0000', '\x0b3', '3\x0b\x0c', '3-', '3+4', '3e4e5', '..1']
+CELL_ALPHABET = list('abcxyzQ 09.-+e_,\t"\'#') + ['é', 'ß', 'ab', 'inf', 'nan', '1', '""', ', ']
+
+
+def rand_text(rng, nonempty=True):
+    """a random cell string without line break"""
+    return ''.join(rng.pick(CELL_ALPHABET) for _ in range(rng.randrange(1 if nonempty else 0, 7)))
+
+
+def text_cell(rng):
+    while True:
+        t = rng.pick(TEXTS) if rng.random() < .3 else rand_text(rng)
+        if t and not _numeric_like(t):
+            return t
+
+
+def rand_float(rng):
+    k = rng.randrange(6)
+    if k == 0:
+        return rng.pick([0.5, 1.23456789, -2.00004, 1e-7, 123.0, -1e-7, 0.0, -0.0, 0.03125, 0.09375, -0.28125, 2.5e15, 1e22,
+                         0.00005, 0.00015, 1e300, 5e-324, 0.99995, 9.99995])
+    if k == 1:
+        return rng.randrange(-10 ** 6, 10 ** 6) / 2 ** rng.randrange(0, 12)       # dyadic: exact ties occur
+    if k == 2:
+        return rng.uniform(-3, 3)
+    if k == 3:
+        return rng.uniform(-1, 1) * 10 ** rng.randrange(-8, 16)
+    if k == 4:
+        return rng.randrange(-10 ** 5, 10 ** 5) / 10 ** 4 + rng.pick([0, 5e-5, -5e-5])
+    return float(rng.randrange(-1000, 1000))
+
+
+def rand_int(rng):
+    return rng.pick([0, 3, -7, 123456, 2 ** 53 + 1, -(2 ** 62) - 1, rng.randrange(-10 ** 9, 10 ** 9), rng.randrange(-50, 50),
+                     10 ** 30])
 
 
 def rand_value(rng, depth=0):
@@ -326,7 +551,7 @@ def rand_value(rng, depth=0):
     if t == 'arr':
         rank = rng.pick([0, 1, 1, 1, 2, 3])
         shape = [rng.pick([0, 1, 2, 3, 9, 10, 11, 12]) for _ in range(rank)] if rank == 1 else [rng.pick([0, 1, 2, 3, 4]) for _ in range(rank)]
-        return dict(t='arr', dtype=rng.pick(DTYPES), shape=shape, layout=rng.pick(['C', 'F', 'strided', 'T']), nan=rng.random() < .3)
+        return dict(t='arr', dtype=rng.pick(DTYPES), shape=shape, layout=rng.pick(['C', 'F', 'strided', 'T', 'rev', 'off']), nan=rng.random() < .3)
     if t == 'list':
         return dict(t='list', v=[rand_value(rng, depth + 1) for _ in range(rng.randrange(0, 4))])
     keys = rng.sample(['a', 'b', 'key', 'x y', '7', 'dtype', 'shape'], rng.randrange(0, 4))
@@ -338,7 +563,7 @@ def gen(tier, rng):
     # JSON: systematic arrays first
     for dt in DTYPES:
         for shape in ([], [0], [1], [9], [10], [11], [2, 3], [0, 2], [2, 1, 3], [12]):
-            for lay in ('C', 'F', 'strided', 'T'):
+            for lay in ('C', 'F', 'strided', 'T', 'rev', 'off'):
                 yield dict(p=PID, op='json', dict=[[{'int': -1}, dict(t='arr', dtype=dt, shape=shape, layout=lay, nan=True)],
                                                    [{'str': 'k'}, dict(t='int', v=1)]])
     for key in ({'int': 0}, {'int': -1}, {'int': -12}, {'int': 10 ** 9}, {'str': 'abc'}, {'str': '-x'}, {'str': '1.5'}, {'str': ''}, {'str': '-'}):
@@ -350,9 +575,23 @@ def gen(tier, rng):
         entries = [[{'int': i}, rand_value(rng)] for i in ints] + [[{'str': s}, rand_value(rng)] for s in strs]
         rng.shuffle(entries)
         yield dict(p=PID, op='json', dict=entries)
+    # the number grammar of _try_make_number
+    yield dict(p=PID, op='number', strings=NUMBERISH)
+    for _ in range(60 if q else 2000):
+        yield dict(p=PID, op='number',
+                   strings=[''.join(rng.pick(list('0123456789') * 2 + list('+-._eE ') + ['inf', 'nan', 'a', '\t', 'in', 'INF', 'x', '__'])
+                                    for _ in range(rng.randrange(0, 7))) for _ in range(25)])
+    # the csv transport contract (the csv module called as _misc.py calls it)
+    for _ in range(150 if q else 3000):
+        rows = [[rand_text(rng, nonempty=False) for _ in range(rng.randrange(0, 4))] for _ in range(rng.randrange(0, 5))]
+        yield dict(p=PID, op='csv', rows=rows, tsv=rng.random() < .5)
     # TSV / CSV
     for _ in range(1500 if q else 30000):
-        fields = rng.sample(['id', 'cluster_id', 'group', 'amp', 'n', 'label', 'zz'], rng.randrange(2, 5))
+        ext = rng.pick(['tsv', 'csv'])
+        names = ['id', 'cluster_id', 'group', 'amp', 'n', 'label', 'zz', 'a b', 'x,y', 'q"r', 'Amp', '1', 'é']
+        if ext == 'tsv':
+            names = names + ['t\tab']             # a tab inside a field name is harmless in a .tsv file only
+        fields = rng.sample(names, rng.randrange(2, 5))
         rows = []
         for _ in range(rng.randrange(1, 6)):
             r = []
@@ -361,23 +600,60 @@ def gen(tier, rng):
                     continue
                 t = rng.randrange(3)
                 if t == 0:
-                    r.append([f, {'int': rng.pick([0, 3, -7, 123456, 2 ** 53 + 1, -(2 ** 62) - 1])}])
+                    r.append([f, {'int': rand_int(rng)}])
                 elif t == 1:
-                    r.append([f, {'float': rng.pick([0.5, 1.23456789, -2.00004, 1e-7, 123.0])}])
+                    r.append([f, {'float': rand_float(rng)}])
                 else:
-                    r.append([f, {'text': rng.pick([s for s in TEXTS if s and not _numeric_like(s) and '\n' not in s])}])
+                    r.append([f, {'text': text_cell(rng)}])
+            if rng.random() < .5:
+                rng.shuffle(r)
             rows.append(r)
         if len({f for r in rows for f, _ in r}) < 2:
             continue
-        yield dict(p=PID, op='tsv', rows=rows, ext=rng.pick(['tsv', 'csv']), first=rng.pick([None, fields[-1], 'absent']))
+        npfloat = rng.pick([0, 0, 32, 64])
+        if npfloat == 32 and any('float' in c and abs(c['float']) > 3e38 for r in rows for _, c in r):
+            npfloat = 0         # would be inf as a float32: finite floats only
+        yield dict(p=PID, op='tsv', rows=rows, ext=ext, first=rng.pick([None, fields[-1], 'absent']), npfloat=npfloat)
     for _ in range(300 if q else 5000):
-        ids = rng.sample(range(0, 500), rng.randrange(0, 6))
-        kind = rng.randrange(3)
-        data = [[i, (rng.pick([1, -4, 0, 9007199254740993]) if kind == 0 else (rng.pick([0.25, 1.5e-3, 7.0]) if kind == 1 else rng.pick(['good', 'mua', 'a,b', 'x\ty', 'q"uote'])))] for i in ids]
-        yield dict(p=PID, op='simple', field=rng.pick(['group', 'KSLabel', 'Amplitude']), data=data, ext=rng.pick(['tsv', 'csv']))
-    for _ in range(200 if q else 3000):
-        keys = rng.sample(['dat_path', 'n_channels_dat', 'dtype', 'offset', 'sample_rate', 'hp_filtered', 'extra'], rng.randrange(1, 6))
+        ids = rng.sample(list(range(0, 500)) + [-1, -20, 10 ** 6, 2 ** 40], rng.randrange(0, 6))
+        data = []
+        for i in ids:
+            kind = rng.randrange(3)
+            data.append([i, (rand_int(rng) if kind == 0 else (rand_float(rng) if kind == 1 else
+                             (rng.pick(['good', 'mua', 'a,b', 'x\ty', 'q"uote', '']) if rng.random() < .5 else
+                              (lambda t: '' if _numeric_like(t) else t)(rand_text(rng, nonempty=False)))))])
+        ext = rng.pick(['tsv', 'csv'])
+        yield dict(p=PID, op='simple', field=rng.pick(['group', 'KSLabel', 'Amplitude', 'my field', 'a,b', 'q"x'] +
+                                                      (['t\tab'] if ext == 'tsv' else [])),
+                   data=data, ext=ext, metadata=rng.random() < .5)
+    for _ in range(300 if q else 5000):
+        keys = rng.sample(['dat_path', 'n_channels_dat', 'dtype', 'offset', 'sample_rate', 'hp_filtered', 'extra', '_x1',
+                           'Fs', 'nChan', 'a', 'match', 'x_y_2'], rng.randrange(1, 6))
+
+        def scalar(inner):
+            k = rng.randrange(6)
+            if k == 0:
+                return rng.pick([3, -1, 0, 384, 10 ** 30, -(2 ** 40)])
+            if k == 1:
+                return rng.pick([2.5, 30000.0, 1e-05, 1e22, -0.0, 0.1, 123456789.12345679, -2.0, 1.5e-300])
+            if k == 2:
+                return rng.random() < .5
+            if k == 3:
+                return None
+            if k == 4:
+                return rng.pick(['int16', 'a b', 'x.dat', '/data/rec 1.bin', '', 'é', "it's", '#1', 'None', '3', 'a, b]', '(x'])
+            # inside lists / tuples repr() quotes and escapes; a top-level string is written between double quotes as it is
+            alpha = list('ab /._-#,[]()=\'') + (['"', '\\', '\t', '\n', '\r', "'"] if inner else [])
+            return ''.join(rng.pick(alpha) for _ in range(rng.randrange(0, 6)))
         data = []
         for k in keys:
-            data.append([k, rng.pick([3, 2.5, True, None, 'int16', 'a b', [1, 2], ['x.dat', 'y.dat'], [], 30000.0, -1])])
+            t = rng.randrange(5)
+            if t <= 1:
+                v = scalar(False)
+            elif t <= 3:
+                v = [scalar(True) for _ in range(rng.randrange(0, 4))]
+            else:
+                v = {'tuple': [scalar(True) for _ in range(rng.randrange(0, 4))]}
+            data.append([k, v])
+        # NumPy scalars only at top level (inside a list repr() writes `np.int64(3)`, which exec cannot read: out of domain)
         yield dict(p=PID, op='params', data=data, npvalues=rng.pick([0, 0, 32, 64]))
